@@ -135,6 +135,75 @@ static void run_file_info(lzma_stream *strm, dec_spec *s, const uint8_t *in, siz
 	res->total_in = strm->total_in; res->total_out = strm->total_out;
 }
 
+// Contrast files for the first life of a reused handle (built once per process).
+static void contrast_plain(vbuf *p, size_t n)
+{
+	static const char words[][8] = { "alpha ", "beta ", "gamma ", "delta ", "xz ", "\xE8\0\0\0\1", "lzma ", "\0\0\0\0" };
+	uint32_t x = 12345;
+	while (p->n < n) { x = x * 1664525u + 1013904223u; const char *w = words[(x >> 24) & 7]; vbuf_append(p, (const uint8_t *)w, strlen(w) ? strlen(w) : 4); }
+	p->n = n;
+}
+
+static void enc_all(lzma_stream *strm, const vbuf *plain, vbuf *out)
+{
+	uint8_t buf[4096];
+	strm->next_in = plain->p; strm->avail_in = plain->n;
+	for (;;) {
+		strm->next_out = buf; strm->avail_out = sizeof(buf);
+		lzma_ret r = lzma_code(strm, LZMA_FINISH);
+		vbuf_append(out, buf, sizeof(buf) - strm->avail_out);
+		if (r != LZMA_OK) break;
+	}
+	lzma_end(strm);
+}
+
+static const vbuf *contrast_input(int kind, const uint8_t *in, size_t in_size)
+{
+	static vbuf xz, alone_unknown, alone_known, lz; static bool built;
+	if (!built) {
+		built = true;
+		vbuf plain = {0}; contrast_plain(&plain, 21845);   // 0x5555 bytes
+		lzma_options_lzma o; lzma_lzma_preset(&o, 0); o.lc = 0; o.lp = 2; o.pb = 0; o.dict_size = 1u << 16;
+		lzma_options_delta od = { .type = LZMA_DELTA_TYPE_BYTE, .dist = 7 };
+		lzma_filter f[4] = { { LZMA_FILTER_DELTA, &od }, { LZMA_FILTER_X86, NULL }, { LZMA_FILTER_LZMA2, &o }, { LZMA_VLI_UNKNOWN, NULL } };
+		lzma_stream e = LZMA_STREAM_INIT;
+		lzma_mt mt = { .threads = 1, .block_size = 8000, .filters = f, .check = LZMA_CHECK_SHA256 };
+		if (lzma_stream_encoder_mt(&e, &mt) == LZMA_OK) enc_all(&e, &plain, &xz); else lzma_end(&e);
+		lzma_stream e2 = LZMA_STREAM_INIT;
+		if (lzma_alone_encoder(&e2, &o) == LZMA_OK) enc_all(&e2, &plain, &alone_unknown); else lzma_end(&e2);
+		if (alone_unknown.n > 13) {
+			// dictionary size field with many bits set (decoders allocate what the header says: 1 MiB - 1)
+			alone_unknown.p[1] = 0xFF; alone_unknown.p[2] = 0xFF; alone_unknown.p[3] = 0x0F; alone_unknown.p[4] = 0x00;
+			vbuf_append(&alone_known, alone_unknown.p, alone_unknown.n);
+			for (int i = 0; i < 8; ++i) alone_known.p[5 + i] = (uint8_t)((uint64_t)plain.n >> (8 * i));   // known size (+ end marker: valid)
+		}
+		// .lz version 0 member, 64 KiB dictionary
+		{
+			uint8_t hdr[6] = { 'L', 'Z', 'I', 'P', 0, 16 };
+			vbuf_append(&lz, hdr, 6);
+			lzma_options_lzma l; lzma_lzma_preset(&l, 0); l.dict_size = 1u << 16; l.lc = 3; l.lp = 0; l.pb = 2;
+			lzma_filter lf[2] = { { LZMA_FILTER_LZMA1, &l }, { LZMA_VLI_UNKNOWN, NULL } };
+			lzma_stream e3 = LZMA_STREAM_INIT;
+			if (lzma_raw_encoder(&e3, lf) == LZMA_OK) enc_all(&e3, &plain, &lz); else lzma_end(&e3);
+			uint32_t crc = lzma_crc32(plain.p, plain.n, 0); uint8_t ft[12];
+			for (int i = 0; i < 4; ++i) ft[i] = (uint8_t)(crc >> (8 * i));
+			for (int i = 0; i < 8; ++i) ft[4 + i] = (uint8_t)((uint64_t)plain.n >> (8 * i));
+			vbuf_append(&lz, ft, 12);
+		}
+		vbuf_free(&plain);
+	}
+	switch (kind) {
+	case D_STREAM: case D_STREAM_MT: return &xz;
+	case D_ALONE: return (in_size & 1) ? &alone_unknown : &alone_known;
+	case D_LZIP: return &lz;
+	case D_AUTO:
+		if (in_size && in[0] == 0xFD) return &xz;
+		if (in_size && in[0] == 'L') return &lz;
+		return (in_size & 1) ? &alone_unknown : &alone_known;
+	default: return NULL;
+	}
+}
+
 void dec_run(dec_spec *s, const lzma_allocator *a, const uint8_t *in, size_t in_size,
 		const slice_plan *plan, dec_result *res)
 {
@@ -145,14 +214,25 @@ void dec_run(dec_spec *s, const lzma_allocator *a, const uint8_t *in, size_t in_
 		// the first life of the handle uses another memory limit, so that anything left over from it is visible
 		const uint64_t keep_limit = s->memlimit;
 		s->memlimit = keep_limit == UINT64_MAX ? UINT64_C(1) << 40 : UINT64_MAX;
-		const lzma_ret wret = dec_init(&strm, s, a, s->warm_in, s->warm_n);
+		// what the first life decodes, and how far (see dec_common.h)
+		uint64_t wh = vhash(in, in_size < 64 ? in_size : 64, vhash(&in_size, sizeof(in_size), VHASH_INIT));
+		const uint8_t *wi = s->warm_in; size_t wn = s->warm_n;
+		const vbuf *cb = ((wh >> 8) & 1) ? contrast_input(s->kind, in, in_size) : NULL;
+		if (cb != NULL && cb->n) { wi = cb->p; wn = cb->n; }
+		const bool abandon = ((wh >> 9) & 1) && wn > 2;
+		if (abandon) wn = 1 + (size_t)((wh >> 16) % (wn - 1));
+		if (s->warm_mon != NULL && s->warm_fail_at > 0) s->warm_mon->fail_at = (int64_t)s->warm_mon->n_alloc + s->warm_fail_at;
+		const lzma_ret wret = dec_init(&strm, s, a, wi, wn);
 		s->memlimit = keep_limit;
 		if (wret == LZMA_OK) {
-			slice_plan wp = { .mode = SL_WHOLE, .final_action = LZMA_FINISH, .continue_informational = true };
+			slice_plan wp = { .mode = SL_WHOLE, .final_action = abandon ? LZMA_RUN : LZMA_FINISH, .continue_informational = true };
+			if (s->kind == D_STREAM_MT && s->timeout) wp.timeout_coder = true;
+			if (abandon) { wp.mode = SL_RANDOM; wp.max_in = 600; wp.max_out = 600; wp.seed = wh; wp.out_limit = 1 + (size_t)((wh >> 32) % 20000); }
 			vbuf wo = {0}; slice_result wr;
-			slicer_run(&strm, s->warm_in + s->skip, s->warm_n - s->skip, &wo, &wp, &wr);
+			slicer_run(&strm, wi + s->skip, wn - s->skip, &wo, &wp, &wr);
 			vbuf_free(&wo);
 		}
+		if (s->warm_mon != NULL) alloc_mon_reset_plan(s->warm_mon);
 		if (s->block_inited) { lzma_filters_free(s->bf, a); s->block_inited = false; }
 	}
 	lzma_ret ret = dec_init(&strm, s, a, in, in_size);
